@@ -742,6 +742,65 @@ def tie_fftw(case):
     return t
 
 # ---------------------------------------------------------------------------------------------
+# NaiveFourierTransform, both code paths: Model/Nft.lean  <->  NaiveFourierTransform(precompute_matrices=True/False) on unstructured points
+
+def gen_nft(rng):
+    ndim = int(rng.integers(1, 4))
+    n, m = int(rng.integers(1, 7)), int(rng.integers(1, 7))
+    return {'family': 'tie-nft', 'x': [[dy(rng, -2, 2) for _ in range(n)] for _ in range(ndim)], 'u': [[dy(rng, -3, 3) for _ in range(m)] for _ in range(ndim)],
+            'w_in': [dy_nz(rng, 0.125, 2.0, 3) for _ in range(n)], 'w_out': [dy_nz(rng, 0.125, 2.0, 3) for _ in range(m)], 'j': int(rng.integers(0, n)), 'k': int(rng.integers(0, m))}
+
+
+def tie_nft(case):
+    import hcipy
+    t = Tie()
+    ndim = len(case['x'])
+    n, m = len(case['x'][0]), len(case['u'][0])
+    gi = hcipy.CartesianGrid(hcipy.UnstructuredCoords([np.array(c, dtype='float64') for c in case['x']]), weights=np.array(case['w_in'], dtype='float64'))
+    go = hcipy.CartesianGrid(hcipy.UnstructuredCoords([np.array(c, dtype='float64') for c in case['u']]), weights=np.array(case['w_out'], dtype='float64'))
+    xs = [np.array(c, dtype=LD) for c in case['x']]
+    us = [np.array(c, dtype=LD) for c in case['u']]
+    dot = sum(np.multiply.outer(us[d], xs[d]) for d in range(ndim))      # (m, n)
+    j, k = case['j'], case['k']
+    ref_f = np.exp(-CLD(1j) * dot[:, j]) * LD(case['w_in'][j])
+    ref_b = np.exp(CLD(1j) * dot[k, :]) * LD(case['w_out'][k]) / (TWO_PI_LD ** ndim)
+    res = {}
+    for path, pre in (('mat', True), ('fly', False)):
+        ft = hcipy.NaiveFourierTransform(gi, go, precompute_matrices=pre)
+        a = np.zeros(n, dtype='complex128'); a[j] = 1
+        b = np.zeros(m, dtype='complex128'); b[k] = 1
+        res[('fwd', path)] = np.asarray(ft.forward(hcipy.Field(a, gi)))
+        res[('bwd', path)] = np.asarray(ft.backward(hcipy.Field(b, go)))
+        for direction, ref in (('fwd', ref_f), ('bwd', ref_b)):
+            e = maxerr(res[(direction, path)], ref)
+            if not e <= 1e-9 * max(float(np.abs(ref).max()), 1e-300):
+                t.bad.append(('tie-nft-' + ('forward' if direction == 'fwd' else 'backward'), 'NaiveFourierTransform(precompute_matrices=%s).%s of a unit impulse on %d unstructured points in %d-D '
+                              'differs from the defining sum by %.3g' % (pre, 'forward' if direction == 'fwd' else 'backward', n if direction == 'fwd' else m, ndim, e)))
+    lists = lambda ll: ';'.join(rat_list(l) for l in ll)
+    # output weights of the backward sum: weights / (2π)^ndim is not rational — the model gets the weights, the comparison divides
+    order = []
+    for direction, w, idx in (('fwd', case['w_in'], j), ('bwd', case['w_out'], k)):
+        for path in ('mat', 'fly'):
+            t.lines.append('C01 nft %s %s %s %s %s %d' % (direction, path, lists(case['x']), lists(case['u']), rat_list(w), idx))
+            order.append((direction, path))
+
+    def check(rs):
+        for key, r in zip(order, rs):
+            if not r.startswith('ok '):
+                return 'model nft %s: %s' % (key, r)
+            mval = eval_psums(r)
+            if key[0] == 'bwd':
+                mval = mval / (TWO_PI_LD ** ndim)
+            e = maxerr(mval, res[key])
+            if not e <= 1e-9 * max(float(np.abs(mval).max()), 1e-300):
+                return 'NaiveFourierTransform.%s (%s path, %d-D) differs from the model by %.3g' % (key[0], key[1], ndim, e)
+        return None
+    t.check = check
+    t.counts = ['tie-nft:%dD' % ndim, 'tie-nft:n=%d' % n]
+    t.sig = ('tie-nft', ndim, n, m)
+    return t
+
+# ---------------------------------------------------------------------------------------------
 # get_fft_parameters ∘ FastFourierTransform: getFftParameters + plan (AxisReproduced, FftValuePre)  <->  the grid the re-built FFT reports
 
 def gen_roundtrip(rng):
@@ -953,7 +1012,7 @@ def tie_select(case):
 
 GEN = {'tie-mft': (gen_mft, tie_mft), 'tie-czt': (gen_czt, tie_czt), 'tie-zoom': (gen_zoom, tie_zoom), 'tie-zoomaxes': (gen_zoomaxes, tie_zoomaxes),
        'tie-state': (gen_state, tie_state), 'tie-lit': (gen_lit, tie_lit), 'tie-select': (gen_select, tie_select),
-       'tie-roundtrip': (gen_roundtrip, tie_roundtrip), 'tie-fftw': (gen_fftw, tie_fftw)}
+       'tie-roundtrip': (gen_roundtrip, tie_roundtrip), 'tie-fftw': (gen_fftw, tie_fftw), 'tie-nft': (gen_nft, tie_nft)}
 
 DIRECTED = [
     {'family': 'tie-zoomaxes', 'r': 1, 'ndim': 2, 'dir': 'fwd', 'seed': 1},        # D5: tensor field on a 2-D grid
